@@ -799,6 +799,10 @@ pub struct LedgerViolation {
 pub const LV_STREAM_WINDOW: &str = "stream_window_exceeded";
 pub const LV_CONN_WINDOW: &str = "connection_window_exceeded";
 pub const LV_FRAME_SIZE: &str = "frame_too_large";
+/// the frame would have been legal under the value in force before the last SETTINGS ACK and comes
+/// within the first 64 KiB after it: data framed under the old settings that the ACK overtook
+pub const LV_FRAME_SIZE_AFTER_ACK: &str = "frame_too_large_right_after_ack";
+pub const LV_STREAM_WINDOW_AFTER_ACK: &str = "stream_window_exceeded_right_after_ack";
 pub const LV_CONCURRENT: &str = "concurrent_streams_exceeded";
 pub const LV_STREAM_ID: &str = "illegal_stream_id";
 pub const LV_CLOSED_STREAM: &str = "frame_on_closed_stream";
@@ -896,6 +900,8 @@ pub struct StreamState {
     pub stalls: u64,
     /// flow-controlled octets received on this stream since the remote last acknowledged a SETTINGS
     pub flow_since_ack: u64,
+    /// INITIAL_WINDOW_SIZE delta applied to this stream at that acknowledgement
+    pub last_ack_delta: i64,
 }
 
 impl StreamState {
@@ -989,6 +995,9 @@ pub struct H2Conn<S: Transport> {
     pub goaway_in: Option<(u32, u32)>,
     hpack_reduce_to: Option<usize>,
     oversize_flagged: Option<usize>,
+    /// MAX_FRAME_SIZE in force before the last acknowledged SETTINGS, octets received since that ACK
+    max_frame_before_ack: u32,
+    flow_since_ack: u64,
     /// "eof", "reset" or an error text once the connection ended
     pub close_kind: Option<String>,
 
@@ -1046,6 +1055,8 @@ impl<S: Transport> H2Conn<S> {
             goaway_in: None,
             hpack_reduce_to: None,
             oversize_flagged: None,
+            max_frame_before_ack: DEFAULT_MAX_FRAME_SIZE,
+            flow_since_ack: 0,
             close_kind: None,
             reader: FrameReader::new(),
             partial: None,
@@ -1501,8 +1512,9 @@ impl<S: Transport> H2Conn<S> {
             if len > max_frame && self.oversize_flagged != Some(idx) {
                 self.oversize_flagged = Some(idx);
                 let info = FrameInfo { typ, flags, stream: stream & 0x7fff_ffff, len };
+                let overtaken = len <= self.max_frame_before_ack && self.flow_since_ack < 65_536;
                 self.violate(
-                    LV_FRAME_SIZE,
+                    if overtaken { LV_FRAME_SIZE_AFTER_ACK } else { LV_FRAME_SIZE },
                     format!("incoming frame header {} announces more than our MAX_FRAME_SIZE {}", info.describe(), max_frame),
                     idx,
                 );
@@ -1599,10 +1611,14 @@ impl<S: Transport> H2Conn<S> {
         let k = self.settings_acked;
         let delta = self.iws_history.get(k).copied().unwrap_or(DEFAULT_INITIAL_WINDOW) as i64
             - self.iws_history.get(k - 1).copied().unwrap_or(DEFAULT_INITIAL_WINDOW) as i64;
+        self.max_frame_before_ack = self.local_settings.max_frame_size;
+        self.flow_since_ack = 0;
         for s in self.streams.values_mut() {
             s.flow_since_ack = 0;
+            s.last_ack_delta = 0;
             if s.epoch < k {
                 s.recv_window += delta;
+                s.last_ack_delta = delta;
             }
         }
         for (id, v) in values {
@@ -1647,7 +1663,8 @@ impl<S: Transport> H2Conn<S> {
 
         let max_frame = self.lenient_limit(SET_MAX_FRAME_SIZE, DEFAULT_MAX_FRAME_SIZE);
         if info.len > max_frame && self.oversize_flagged != Some(idx) {
-            self.violate(LV_FRAME_SIZE, format!("{} is longer than our MAX_FRAME_SIZE {}", info.describe(), max_frame), idx);
+            let overtaken = info.len <= self.max_frame_before_ack && self.flow_since_ack < 65_536;
+            self.violate(if overtaken { LV_FRAME_SIZE_AFTER_ACK } else { LV_FRAME_SIZE }, format!("{} is longer than our MAX_FRAME_SIZE {}", info.describe(), max_frame), idx);
         }
 
         // CONTINUATION sequencing
@@ -1868,6 +1885,7 @@ impl<S: Transport> H2Conn<S> {
         }
         self.conn_recv_window -= flow;
         self.conn_recv_flow += flow as u64;
+        self.flow_since_ack += flow as u64;
         let conn_after = self.conn_recv_window;
 
         let mut stream_live = false;
@@ -1887,8 +1905,10 @@ impl<S: Transport> H2Conn<S> {
                 v.push((LV_STREAM_STATE, format!("DATA on stream {sid} before any HEADERS from the sender")));
             }
             if flow > 0 && flow > s.recv_window + extra {
+                // legal before the INITIAL_WINDOW_SIZE reduction acknowledged last, and close behind it
+                let overtaken = s.last_ack_delta < 0 && flow <= s.recv_window + extra - s.last_ack_delta && s.flow_since_ack + flow as u64 <= 65_536;
                 v.push((
-                    LV_STREAM_WINDOW,
+                    if overtaken { LV_STREAM_WINDOW_AFTER_ACK } else { LV_STREAM_WINDOW },
                     format!(
                         "DATA of {flow} flow-controlled octets on stream {sid} with a stream window of {} (+{extra} not yet acknowledged) [stream opened under our SETTINGS #{}, {} received so far ({} since the last SETTINGS ACK), {} granted by WINDOW_UPDATE; INITIAL_WINDOW_SIZE history {:?}, {} of {} SETTINGS acknowledged]",
                         s.recv_window, s.epoch, s.recv_flow, s.flow_since_ack, s.granted_updates, self.iws_history, self.settings_acked, self.settings_sent
